@@ -206,7 +206,8 @@ def valid_server_name(config: Config, request: "Request") -> bool:
     host = ""
     for name, value in request.headers:
         if name.lower() == b"host":
-            host = value.decode()
+            # A host that is not valid UTF-8 cannot match a configured name
+            host = value.decode("utf-8", "replace")
             break
     return host in config.server_names
 
